@@ -881,8 +881,12 @@ func (r *gRun) labels() []string {
 			break
 		}
 	}
-	if len(r.sc.nodes) == 0 {
-		l = append(l, "trivial")
+	slots := 0
+	for _, n := range r.sc.nodes {
+		slots += len(n.slots)
+	}
+	if len(r.sc.nodes) < 2 || slots == 0 {
+		l = append(l, "trivial") // nothing to wire: exercises no branch of matching or of the cache protocol
 	}
 	return l
 }
